@@ -12,6 +12,7 @@ import (
 	"strings"
 	"text/template/parse"
 
+	"golang.org/x/tools/go/packages"
 	"golang.org/x/tools/go/ssa"
 )
 
@@ -58,10 +59,14 @@ func moduleExternalCalls(ld *Loaded) (calls []extCall, goSelect []string, mapRan
 		names = append(names, n)
 	}
 	sort.Strings(names)
+	prog := ld.programPackages()
 	for _, n := range names {
 		f := ld.funcs[n]
-		if !ld.isModuleFn(f) || strings.HasPrefix(n, "template.templateFuncs[") && false {
+		if !ld.isModuleFn(f) {
 			continue
+		}
+		if p := pkgOf(f); p == nil || !prog[p.Path()] {
+			continue // sample packages (example, generate) are not part of the moq program
 		}
 		if f.Synthetic != "" && f.Name() != "init" {
 			continue
@@ -139,7 +144,7 @@ func moduleObligations(ld *Loaded, specs *SpecDB, prop, repo string) []*ObResult
 				unknown = appendUnique(unknown, fmt.Sprintf("%s calls %s (%s)", c.caller, c.callee, c.pos))
 			}
 			for _, d := range denyPrefixes {
-				if strings.HasPrefix(c.callee, d) {
+				if c.callee == d || (strings.HasSuffix(d, ".") || strings.HasSuffix(d, "rand")) && strings.HasPrefix(c.callee, d) {
 					denied = appendUnique(denied, fmt.Sprintf("%s calls %s (%s)", c.caller, c.callee, c.pos))
 				}
 			}
@@ -274,4 +279,25 @@ func walkTemplate(n parse.Node, ranges, ifs, actions *[]string) {
 	case *parse.ActionNode:
 		*actions = append(*actions, x.Pipe.String())
 	}
+}
+
+// programPackages: the module packages reachable from package main (the moq program).
+func (l *Loaded) programPackages() map[string]bool {
+	out := map[string]bool{}
+	var visit func(p *packages.Package)
+	visit = func(p *packages.Package) {
+		if out[p.PkgPath] || !l.modPaths[p.PkgPath] {
+			return
+		}
+		out[p.PkgPath] = true
+		for _, im := range p.Imports {
+			visit(im)
+		}
+	}
+	for _, p := range l.pkgs {
+		if p.Name == "main" && p.PkgPath == "github.com/matryer/moq" {
+			visit(p)
+		}
+	}
+	return out
 }
